@@ -77,6 +77,7 @@ func runScenario(sp *Spec) *Outcome {
 	})
 
 	released := 0
+	hangChecks := 0
 	pcancelled := false
 	var final []vk.G
 	for {
@@ -98,12 +99,27 @@ func runScenario(sp *Spec) *Outcome {
 		}
 		m := a.next()
 		if m < 0 {
+			if !task.Done() && hangChecks < 3 {
+				// nothing left to release and the call has not returned: a hang is a stable state, so it must be
+				// observed again, unchanged, at further quiescent points before it is reported
+				hangChecks++
+				runtime.Gosched()
+				time.Sleep(100 * time.Microsecond)
+				continue
+			}
 			break
+		}
+		if hangChecks > 0 {
+			oc.Counts["hang-suspicion-withdrawn"]++
+			hangChecks = 0
 		}
 		a.release(m)
 		released++
 	}
 
+	if hangChecks > 0 && task.Done() {
+		oc.Counts["hang-suspicion-withdrawn"]++
+	}
 	o := &obs{sp: sp, returned: task.Done()}
 	if !o.returned {
 		o.hangDump = fullDump(final, base)
@@ -233,21 +249,48 @@ func quiesce(oc *Outcome) ([]vk.G, bool) {
 		if !ok {
 			return gs, false
 		}
-		transient := false
-		for _, g := range gs {
-			if g.State != "semacquire" {
-				continue
-			}
-			if len(g.Funcs) > 0 && (strings.HasPrefix(g.Funcs[0], "sync.runtime_Semacquire") || strings.HasPrefix(g.Funcs[0], "internal/poll.runtime_Semacquire")) {
-				continue
-			}
-			transient = true
+		if !settled(gs) {
+			oc.Counts["quiesce/runtime-semaphore-wait-rejected"]++
+			runtime.Gosched()
+			time.Sleep(50 * time.Microsecond) // lets the hidden runtime goroutine finish; never decides anything
+			continue
 		}
-		if !transient {
-			return gs, true
-		}
-		oc.Counts["quiesce/runtime-semaphore-wait-rejected"]++
+		// One more observation after yielding: the same goroutines must still be parked in the same states.
+		// (A quiescent state cannot change by itself, so this costs one dump and can only make the oracle slower,
+		// never wrong; it is counted so that the evidence shows whether vk.Quiesce was ever contradicted.)
 		runtime.Gosched()
-		time.Sleep(50 * time.Microsecond) // lets the hidden runtime goroutine finish; never decides anything
+		again := vk.Goroutines()
+		if settled(again) && sameStates(gs, again) {
+			return again, true
+		}
+		oc.Counts["quiesce/contradicted-by-reobservation"]++
 	}
+}
+
+func settled(gs []vk.G) bool {
+	for _, g := range gs {
+		if !g.Blocked() {
+			return false
+		}
+		if g.State != "semacquire" {
+			continue
+		}
+		if len(g.Funcs) > 0 && (strings.HasPrefix(g.Funcs[0], "sync.runtime_Semacquire") || strings.HasPrefix(g.Funcs[0], "internal/poll.runtime_Semacquire")) {
+			continue
+		}
+		return false
+	}
+	return true
+}
+
+func sameStates(a, b []vk.G) bool {
+	if len(a) != len(b) {
+		return false
+	}
+	for i := range a {
+		if a[i].ID != b[i].ID || a[i].State != b[i].State || len(a[i].Funcs) != len(b[i].Funcs) {
+			return false
+		}
+	}
+	return true
 }
